@@ -120,6 +120,20 @@ Theorem C19_changes_reported :
 Proof. exact @changes_reported. Qed.
 Print Assumptions C19_changes_reported.
 
+(* Batching: a net change of usability over any further sequence of events -- e.g. the deletions
+   cleanupUnwatchedAppWafResources performs for a namespace that stops being watched, in whatever order
+   the cache lists them -- is carried by the change list of at least one of the single steps, so a
+   consumer must process every one of them (or their union), not only the last. *)
+Theorem C19_net_flip_reported :
+  forall (fx en : bool) (evs more : list event) (kd : kind) (key : string),
+    K1_hist (evs ++ more)%list -> kd = KPolicy \/ kd = KLogConf \/ kd = KDosPR ->
+    usable (run fx en evs) kd key <> usable (run fx en (evs ++ more)%list) kd key ->
+    exists pre ev post, more = (pre ++ ev :: post)%list /\
+      let st := run fx en (evs ++ pre)%list in
+      In (chg (op_for (usable (fst (step fx st ev)) kd key)) kd key) (o_changes (snd (step fx st ev))).
+Proof. exact @net_flip_reported. Qed.
+Print Assumptions C19_net_flip_reported.
+
 (* DoS policies and DoS log configurations have no getter of their own (their validity shows in the
    answers for the protected resources naming them, covered above); their own events always name
    them in the change list, with a problem when they are invalid. *)
